@@ -127,3 +127,20 @@ func hC15(n, prefix, L, vlen int) {
 
 func H_C15_q() { hC15(2, 3, 3, 2) }
 func H_C15_t() { hC15(3, 3, 4, 2) }
+
+// vCheckDirSoft: as vCheckDir, but the path continues after a finding.
+func vCheckDirSoft(db *DB, tag string) {
+	for _, nm := range vDirNames(db.opts.FileSystem) {
+		switch nm {
+		case lockName, dbMetaName, indexMetaName, indexMainName, indexOverflowName:
+			continue
+		}
+		live := false
+		for _, seg := range db.datalog.segments {
+			if seg != nil && (nm == seg.name || nm == seg.name+metaExt) {
+				live = true
+			}
+		}
+		vExpect(live, tag+".dir.orphan-file")
+	}
+}
